@@ -75,7 +75,7 @@ class _TextCueParser:
   def _handle_ts(self, token: TimestampTagToken):
 
     span = self._make_span(self.parent)
-    self.parent.push_child(span)
+    self._push_inline(span)
     self.parent = span
 
     ts = vtt_timestamp_to_secs(token.timestamp)
@@ -118,7 +118,7 @@ class _TextCueParser:
     # all other tags can be handled as a span
 
     span = self._make_span(self.parent)
-    self.parent.push_child(span)
+    self._push_inline(span)
     self.parent = span
 
     if isinstance(span.parent(), model.P):
@@ -171,6 +171,9 @@ class _TextCueParser:
     elif isinstance(self.parent, (model.Rt, model.Rb)):
       # this is needed since <rb> and <rt> are nested in <rbc> and <rtc>
       self.parent = self.parent.parent()
+    elif isinstance(self.parent.parent(), model.Rb):
+      # a span of the ruby base text, which was wrapped in <rbc> and <rb>
+      self.parent = self.parent.parent().parent()
 
     self.parent = self.parent.parent()
 
@@ -179,15 +182,24 @@ class _TextCueParser:
 
     for i, line in enumerate(lines):
       if i > 0:
-        self.parent.push_child(model.Br(self.parent.get_doc()))
+        self._push_inline(model.Br(self.parent.get_doc()))
       span = self._make_span(self.parent)
       span.push_child(model.Text(self.parent.get_doc(), line))
-      if isinstance(self.parent, model.Ruby):
-        rb = model.Rb(self.parent.get_doc())
-        rb.push_child(span)
-        self.ruby_rbc.push_child(rb)
-      else:
-        self.parent.push_child(span)
+      self._push_inline(span)
+
+  def _push_inline(self, element: model.ContentElement):
+    """Appends an inline element at the current position. Inline content directly within
+    <ruby> is base text, which is wrapped in <rb> and collected in <rbc>."""
+    if isinstance(self.parent, model.Ruby):
+      if not isinstance(element, model.Span):
+        span = model.Span(self.parent.get_doc())
+        span.push_child(element)
+        element = span
+      rb = model.Rb(self.parent.get_doc())
+      rb.push_child(element)
+      self.ruby_rbc.push_child(rb)
+    else:
+      self.parent.push_child(element)
 
   def _make_span(self, parent: model.ContentElement) -> model.Span:
     span = model.Span(self.parent.get_doc())
